@@ -6,6 +6,9 @@ import (
 	"strconv"
 
 	"github.com/emirpasic/gods/v2/containers"
+	"github.com/emirpasic/gods/v2/maps/treebidimap"
+	"github.com/emirpasic/gods/v2/maps/treemap"
+	"github.com/emirpasic/gods/v2/sets/treeset"
 
 	"github.com/emirpasic/gods/v2/lists"
 	"github.com/emirpasic/gods/v2/maps"
@@ -55,6 +58,16 @@ func enumerateIdx[T comparable](op Op, o *Oracle, d *Dom[T], en *idxEnumA[T], se
 	obs func() string, wrap func(result any, model []T) Subject, insertAll func(xs []T) []T, mutateRecv func()) bool {
 	p, k := op.A[0], op.A[1]
 	pred := idxPred(d, p, k)
+	if len(op.A) > 2 && op.A[2] == 1 {
+		// a re-entrant predicate: it reads the receiver through other read-only calls while the outer
+		// enumeration is in progress (legal: enumerables and fresh iterators do not modify the container)
+		inner := pred
+		pred = func(i int, v T) bool {
+			en.Find(func(j int, _ T) bool { return j == i }) // (first: see the note in checkC09)
+			en.Any(func(int, T) bool { return false })
+			return inner(i, v)
+		}
+	}
 	ps := func(x idxPair[T]) string { return strconv.Itoa(x.i) + ":" + d.Str(x.v) }
 	before := obs()
 	unchanged := func(what string) {
@@ -65,7 +78,13 @@ func enumerateIdx[T comparable](op Op, o *Oracle, d *Dom[T], en *idxEnumA[T], se
 	switch op.N {
 	case "Each":
 		var log []idxPair[T]
-		en.Each(func(i int, v T) { log = append(log, idxPair[T]{i, v}) })
+		en.Each(func(i int, v T) {
+			if len(op.A) > 2 && op.A[2] == 1 {
+				en.All(func(int, T) bool { return true }) // re-entrant
+				en.Each(func(int, T) {})
+			}
+			log = append(log, idxPair[T]{i, v})
+		})
 		if g, w := mapS(log, ps), mapS(seq, ps); !slices.Equal(g, w) {
 			o.Fail("C14", "each-log", "Each visited %v, iterator sequence %v", g, w)
 		}
@@ -222,6 +241,20 @@ func (s *kvSubj[K]) Enumerate(op Op, o *Oracle) bool {
 	d := s.d
 	p, k := op.A[0], op.A[1]
 	pred := keyPred(d, p, k)
+	reentrant := len(op.A) > 2 && op.A[2] == 1
+	if reentrant {
+		// a re-entrant predicate: reads the receiver through other read-only calls mid-enumeration
+		inner := pred
+		pred = func(key K, v string) bool {
+			en.Find(func(k2 K, _ string) bool { return d.Str(k2) == d.Str(key) })
+			en.Any(func(K, string) bool { return false })
+			s.m.Values()
+			if it := s.keyIter(); it != nil {
+				it.Next()
+			}
+			return inner(key, v)
+		}
+	}
 	var seq []kvEnt[K]
 	for it := s.keyIter(); it.Next(); {
 		seq = append(seq, kvEnt[K]{it.Key(), it.Value()})
@@ -236,7 +269,14 @@ func (s *kvSubj[K]) Enumerate(op Op, o *Oracle) bool {
 	switch op.N {
 	case "Each":
 		var log []kvEnt[K]
-		en.Each(func(k K, v string) { log = append(log, kvEnt[K]{k, v}) })
+		en.Each(func(k K, v string) {
+			if reentrant {
+				en.All(func(K, string) bool { return true })
+				en.Each(func(K, string) {})
+				s.m.Values()
+			}
+			log = append(log, kvEnt[K]{k, v})
+		})
 		if g, w := mapS(log, ps), mapS(seq, ps); !slices.Equal(g, w) {
 			o.Fail("C14", "each-log", "Each visited %v, iterator sequence %v", g, w)
 		}
@@ -331,6 +371,9 @@ type enumWorld struct{}
 
 func (w *enumWorld) Gen(seed uint64, tier string) *Plan {
 	r := NewRng(seed)
+	if r.P(1, 1500) {
+		return genDeep(r)
+	}
 	cfg := genCfg(r, enumKinds, tier)
 	if cfg.Dom > 32 {
 		cfg.Dom = 32
@@ -349,7 +392,7 @@ func (w *enumWorld) Gen(seed uint64, tier string) *Plan {
 		p.Ops = append(p.Ops, op)
 		if r.P(1, 4) || i == n-1 {
 			for j := r.Range(1, 4); j > 0; j-- {
-				p.Ops = append(p.Ops, Op{ID: id, N: enumNames[r.Intn(len(enumNames))], X: 1, A: []int{r.Intn(nPreds * nMaps), r.Intn(cfg.Dom)}})
+				p.Ops = append(p.Ops, Op{ID: id, N: enumNames[r.Intn(len(enumNames))], X: 1, A: []int{r.Intn(nPreds * nMaps), r.Intn(cfg.Dom), r.Weighted(3, 1)}})
 				id++
 			}
 		}
@@ -358,6 +401,9 @@ func (w *enumWorld) Gen(seed uint64, tier string) *Plan {
 }
 
 func (w *enumWorld) Exec(p *Plan, st *RunStats) *Violation {
+	if p.World == "enum-deep" {
+		return execDeep(p, st)
+	}
 	attach(p)
 	start := stepCount
 	s := makeSubject(p.Cfg, false)
@@ -386,5 +432,142 @@ func (w *enumWorld) Exec(p *Plan, st *RunStats) *Violation {
 	}
 	st.Steps = stepCount - start
 	st.NonTrivial = dependent >= 1
+	return o.V
+}
+
+// ---- deep trees ------------------------------------------------------------------------------------------
+//
+// One run in ~1500 builds a tree-backed enumerable container of 200 000 - 262 144 keys inserted in
+// descending or ascending order (a red-black tree is then more than 32 levels deep on one side) and
+// runs every enumerable function once, judged against the iterator: bounds that were sized for
+// "balanced, so 32 levels are enough" show here and nowhere else. No reference model at this size.
+
+func genDeep(r *Rng) *Plan {
+	cfg := Cfg{Kind: r.PickS("treeset", "treemap", "treebidimap"), Elem: "int", Cmp: "nat", Mode: "deep",
+		Dom: []int{200_000, 262_144}[r.Intn(2)], MapSeed: r.U64()}
+	return &Plan{World: "enum-deep", Cfg: cfg, Ops: []Op{{ID: 0, N: "FillSorted", A: []int{cfg.Dom, r.Intn(2)}}, {ID: 1, N: "EnumerateAll", X: 1}}}
+}
+
+func execDeep(p *Plan, st *RunStats) *Violation {
+	attach(p)
+	start := stepCount
+	saveLimit := stepLimit
+	stepLimit = 1 << 40 // one bulk operation over 262 144 keys legitimately passes more sites than a single call elsewhere
+	defer func() { stepLimit, opSteps = saveLimit, 0 }()
+	o := NewOracle("C14", "C14")
+	o.Kind = p.Cfg.Kind
+	n, desc := p.Cfg.Dom, false
+	if len(p.Ops) > 0 && len(p.Ops[0].A) == 2 {
+		n, desc = p.Ops[0].A[0], p.Ops[0].A[1] == 1
+	}
+	key := func(i int) int { // i-th inserted key
+		if desc {
+			return n - i
+		}
+		return i + 1
+	}
+	val := func(k int) string { return "v" + strconv.Itoa(k%97) }
+	safely(o, Op{ID: 1, N: "EnumerateAll"}, func() {
+		o.cur = Op{ID: 1, N: "EnumerateAll"}
+		fail := func(what string, args ...any) {
+			o.Fail("C14", "deep-"+what, "tree of %d keys inserted %s: "+fmt.Sprintf(what+": ", args...), n, map[bool]string{true: "descending", false: "ascending"}[desc])
+		}
+		switch p.Cfg.Kind {
+		case "treeset":
+			s := treeset.New[int]()
+			for i := 0; i < n; i++ {
+				s.Add(key(i))
+			}
+			cnt, bad := 0, -1
+			s.Each(func(i int, v int) {
+				if (i != cnt || v != cnt+1) && bad < 0 {
+					bad = cnt
+				}
+				cnt++
+			})
+			if cnt != n || bad >= 0 {
+				fail("Each visited %d elements (first wrong at %d)", cnt, bad)
+			}
+			if s.Any(func(int, int) bool { return false }) || !s.All(func(int, int) bool { return true }) {
+				fail("Any(false)/All(true) wrong")
+			}
+			if i, v := s.Find(func(_ int, v int) bool { return v == n }); i != n-1 || v != n {
+				fail("Find(last) = (%d,%d)", i, v)
+			}
+			if sel := s.Select(func(_ int, v int) bool { return v%1000 == 0 }); sel.Size() != n/1000 {
+				fail("Select kept %d elements, want %d", sel.Size(), n/1000)
+			}
+			if m := s.Map(func(_ int, v int) int { return v / 2 }); m.Size() != n/2+1 {
+				fail("Map(v/2) has %d elements, want %d", m.Size(), n/2+1)
+			}
+			if s.Size() != n {
+				fail("receiver size changed to %d", s.Size())
+			}
+		case "treemap":
+			m := treemap.New[int, string]()
+			for i := 0; i < n; i++ {
+				m.Put(key(i), val(key(i)))
+			}
+			cnt, bad := 0, -1
+			m.Each(func(k int, v string) {
+				if (k != cnt+1 || v != val(k)) && bad < 0 {
+					bad = cnt
+				}
+				cnt++
+			})
+			if cnt != n || bad >= 0 {
+				fail("Each visited %d pairs (first wrong at %d)", cnt, bad)
+			}
+			if m.Any(func(int, string) bool { return false }) || !m.All(func(int, string) bool { return true }) {
+				fail("Any(false)/All(true) wrong")
+			}
+			if k, v := m.Find(func(k int, _ string) bool { return k == n }); k != n || v != val(n) {
+				fail("Find(last) = (%d,%q)", k, v)
+			}
+			if sel := m.Select(func(k int, _ string) bool { return k%1000 == 0 }); sel.Size() != n/1000 {
+				fail("Select kept %d pairs, want %d", sel.Size(), n/1000)
+			}
+			if mm := m.Map(func(k int, v string) (int, string) { return k / 2, v }); mm.Size() != n/2+1 {
+				fail("Map(k/2) has %d pairs, want %d", mm.Size(), n/2+1)
+			}
+			if m.Size() != n {
+				fail("receiver size changed to %d", m.Size())
+			}
+		default:
+			m := treebidimap.New[int, int]()
+			for i := 0; i < n; i++ {
+				m.Put(key(i), -key(i))
+			}
+			cnt, bad := 0, -1
+			m.Each(func(k int, v int) {
+				if (k != cnt+1 || v != -k) && bad < 0 {
+					bad = cnt
+				}
+				cnt++
+			})
+			if cnt != n || bad >= 0 {
+				fail("Each visited %d pairs (first wrong at %d)", cnt, bad)
+			}
+			if m.Any(func(int, int) bool { return false }) || !m.All(func(int, int) bool { return true }) {
+				fail("Any(false)/All(true) wrong")
+			}
+			if k, v := m.Find(func(k int, _ int) bool { return k == n }); k != n || v != -n {
+				fail("Find(last) = (%d,%d)", k, v)
+			}
+			if sel := m.Select(func(k int, _ int) bool { return k%1000 == 0 }); sel.Size() != n/1000 {
+				fail("Select kept %d pairs, want %d", sel.Size(), n/1000)
+			}
+			if mm := m.Map(func(k int, v int) (int, int) { return k / 2, v / 2 }); mm.Size() != n/2+1 {
+				fail("Map(k/2,v/2) has %d pairs, want %d", mm.Size(), n/2+1)
+			}
+			if m.Size() != n {
+				fail("receiver size changed to %d", m.Size())
+			}
+		}
+	})
+	st.Ops = 2
+	st.Steps = stepCount - start
+	st.MaxSize = n
+	st.Probe("deep-tree-run")
 	return o.V
 }
